@@ -33,3 +33,4 @@ run stree-inorderafter-binds-root-at-creation.diff C01 C04
 run stack-slice-single-element-view.diff C10
 run ring-of-single-pass-omap-new-closure-mapset-clone-loop.diff C04 C10 C18
 run partition-rescans-swapped-element.diff C07 C17
+run comparenatural-digit-strings-no-overflow.diff C20
